@@ -204,6 +204,11 @@ def run(ctx):
         call(ctx, "evaluate_log_F_ext", lambda: evaluate_log_F_ext(sizes["small"], **kw), {**kw, "data": "small"}, lines, expect)
         call(ctx, "perform_exploratory_kramers_kronig_tests", lambda: perform_exploratory_kramers_kronig_tests(sizes["small"], **kw), {**kw, "data": "small"}, lines, expect)
 
+    # the extension search fans out over worker processes; with the non-linear test every worker fans out again
+    for (t, nproc) in ([("cnls", 2), ("cnls", 4), ("complex", 2), ("real-inv", 3)] if big else [("cnls", 2)]):
+        kw = dict(test=t, num_F_ext_evaluations=10, num_procs=nproc, max_nfev=30 if t == "cnls" else 0, timeout=60 if t == "cnls" else 0)
+        call(ctx, "evaluate_log_F_ext", lambda: evaluate_log_F_ext(sizes["small"], **kw), {**kw, "data": "small"}, lines, expect)
+
     # ---- Z-HIT
     if len(_WINDOW_FUNCTIONS) == 0:
         _initialize_window_functions()
